@@ -495,6 +495,20 @@ def collect (fs : FS) : Nat → Nat → List Nat
       | none => []
       | some it => if it.ty = .folder then collect fs f c else [c])
 
+/-- walking up from `cur` ends (reaches "" or a missing item) within the fuel -/
+def walkEnds (fs : FS) : Nat → Option Nat → Bool
+  | 0, _ => false
+  | _ + 1, none => true
+  | f + 1, some cur =>
+    match fs.items.get cur with
+    | none => true
+    | some it => walkEnds fs f it.parent
+
+/-- the structure holds a parent cycle: `buildFolderPath` / `generateBreadcrumbs` (`for currentID != ""`)
+never return on it.  `updateDashboard` has no circular-reference check (only `updateFolder` has), so
+"moving" a FOLDER id through the dashboard API under itself or one of its descendants creates one. -/
+def hasCycle (fs : FS) : Bool := fs.items.any (fun e => !walkEnds fs (fuel fs) (some e.1))
+
 def setFS (st : St) (t : Nat) (fs : FS) : St := { st with fs := upd st.fs t fs }
 
 /-- a sibling (child of `parent` in `order`) other than `self` with this name and, if given, this type -/
